@@ -466,6 +466,7 @@ class NNFizer(DagWalker):
                 formula.is_symbol() or \
                 formula.is_function_application() or \
                 formula.is_bool_constant() or \
+                formula.is_select() or \
                 formula.is_theory_relation(), str(formula)
             return []
 
@@ -541,6 +542,9 @@ class NNFizer(DagWalker):
     @handles(op.THEORY_OPERATORS)
     def walk_theory_op(self, formula, **kwargs):
         #pylint: disable=unused-argument
+        if formula.get_type().is_bool_type():
+            # An atom, e.g., a read from an array of Booleans
+            return formula
         return None
 
 # EOC NNFizer
@@ -713,6 +717,9 @@ class PrenexNormalizer(DagWalker):
     @handles(op.THEORY_OPERATORS)
     def walk_theory_op(self, formula: FNode, **kwargs):
         #pylint: disable=unused-argument
+        if formula.get_type().is_bool_type():
+            # An atom, e.g., a read from an array of Booleans
+            return [], formula
         return None
 
 # EOC PrenexNormalizer
